@@ -78,7 +78,7 @@ def supports(draw, cands, allow_zero=True):
 
 
 @st.composite
-def params(draw, n_blocs=None, max_slate=3, allow_zero=True, min_slate=1):
+def params(draw, n_blocs=None, max_slate=3, allow_zero=True, min_slate=1, shuffle_inner=True):
     nb = n_blocs or draw(st.integers(1, 3))
     blocs = ["W", "C", "H"][:nb]
     slates = {}
@@ -88,4 +88,12 @@ def params(draw, n_blocs=None, max_slate=3, allow_zero=True, min_slate=1):
     prop = draw(simplex(blocs, allow_zero=allow_zero))
     cohesion = {b: draw(simplex(blocs, allow_zero=allow_zero)) for b in blocs}
     intervals = {b: {b2: draw(supports(slates[b2], allow_zero=allow_zero)) for b2 in blocs} for b in blocs}
+    if shuffle_inner and nb > 1:
+        # the inner dictionaries are keyed by bloc name: writing them in different key orders is
+        # the same parameter set
+        for b in blocs:
+            o1 = draw(st.permutations(blocs))
+            o2 = draw(st.permutations(blocs))
+            cohesion[b] = {k: cohesion[b][k] for k in o1}
+            intervals[b] = {k: intervals[b][k] for k in o2}
     return {"slates": slates, "prop": prop, "cohesion": cohesion, "intervals": intervals}
